@@ -820,6 +820,26 @@ def engine_chain(run, rng: random.Random, base: str, case_id: Any, sample: bool)
         run.count(f'chain_members_{n_members}')
         if any(members[i][1] for i in final):
             run.count('chains_with_prefixed_member')
+        # a chain is itself a filesystem: wrapped in another chain (alone, and behind an empty member) it answers like itself
+        if True:
+            from srctools.filesys import VirtualFileSystem as _VFS
+            empty_member = _VFS({})
+            outer = FileSystemChain(chain) if rng.random() < 0.5 else FileSystemChain(empty_member, chain)
+            try:
+                inner_list = sorted(norm(f.path).casefold() for f in chain.walk_folder(''))
+                outer_list = sorted(norm(f.path).casefold() for f in outer.walk_folder(''))
+                if inner_list != outer_list:
+                    ck.fail('nested-chain-differs', f'a chain wrapped in another chain lists {outer_list[:6]}, on its own {inner_list[:6]}')
+                for f in list(chain.walk_folder(''))[:12]:
+                    for q in (f.path, f.path.upper() if all(m[0].ref.fold for m in members) else f.path):
+                        a, ea = ck.try_lookup(chain, q)
+                        b2, eb = ck.try_lookup(outer, q)
+                        if (a, ea) != (b2, eb):
+                            ck.fail('nested-chain-differs', f'lookup of {q!r}: the chain answers {None if a is None else a[:30]!r} {ea}, wrapped in another chain {None if b2 is None else b2[:30]!r} {eb}')
+                            break
+                run.count('nested_chains_compared')
+            except Exception as exc:
+                ck.fail('nested-chain-differs', f'a chain wrapped in another chain raised {type(exc).__name__}: {exc}', {'tb': traceback.format_exc()[-800:]})
     finally:
         for b, _, _ in members:
             b.close()
@@ -855,7 +875,7 @@ def main(run, shard=(0, 1)) -> None:
     run.extra['raw_backend_case_sensitive'] = bool(_CASE_SENSITIVE)
     probe.report(run)
     probe.check_reached(run)
-    run.require('lookups', 'file_sets_with_non_ascii_names', 'walks', 'listed_names_looked_up', 'chain_lookups', 'chain_walks', 'add_sys_priority',
+    run.require('lookups', 'file_sets_with_non_ascii_names', 'nested_chains_compared', 'walks', 'listed_names_looked_up', 'chain_lookups', 'chain_walks', 'add_sys_priority',
                 'chains_with_prefixed_member', 'backend_virtual', 'backend_zip', 'backend_vpk', 'backend_raw',
                 'casedup_backends_checked', 'chain_members_4', 'chains_with_member_mounted_twice')
 
